@@ -41,12 +41,21 @@ def check(case) -> Result:
         return Result(classes=(f'element-rejected:{type(e).__name__}',))
     accepted = rejected = rejected_after_accept = 0
     classes = set()
+    touched = set()      # elements with a parameter re-expressed in place: a conversion round trip may move a value by
+    #                      an ulp, and same-unit comparisons are exact - their compatibility is then too close to call
     for n, call in enumerate(case['calls']):
         fn = call['fn']
         mi, si = call['m'] % len(els), call['s'] % len(els)
         m, s = els[mi], els[si]
         ms, ss = specs[mi], specs[si]
         x = call.get('x')
+        for ei, attr, unit in call.get('reexpress') or []:
+            # before the call the user re-expresses a parameter of an element in place (same physical quantity)
+            q_ = getattr(els[ei % len(els)], attr, None)
+            if q_ is not None and hasattr(q_, 'to'):
+                q_.to(unit, inplace=True)
+                classes.add('parameter-re-expressed')
+                touched.add(ei % len(els))
         if fn == 'gear':
             reasons, amb, exp = R.gear_mating(ms, ss, mi == si, x)
             args = dict(master=m, slave=s, efficiency=x)
@@ -56,6 +65,8 @@ def check(case) -> Result:
         else:
             reasons, amb, exp = R.fixed_joint(ms, ss, mi == si)
             args = dict(master=m, slave=s)
+        if fn in ('gear', 'worm') and (mi in touched or si in touched):
+            amb = True
         before = [B.relation_state(e) for e in els]
         tag = f'{fn}({ms["type"]}->{ss["type"]})'
         try:
@@ -210,6 +221,10 @@ def s_case(draw):
         else:
             m, s = draw(st.integers(0, n - 1)), draw(st.integers(0, n - 1))
         calls.append({'fn': fn, 'm': m, 's': s, 'x': draw(num)})
+        if draw(st.integers(0, 4)) == 0:
+            kinds = {'helix_angle': 'Angle', 'pressure_angle': 'Angle', 'module': 'Length'}
+            calls[-1]['reexpress'] = [[draw(st.sampled_from([m, s])), a_, draw(st.sampled_from(list(U.UNITS[kinds[a_]])))]
+                                      for a_ in draw(st.lists(st.sampled_from(sorted(kinds)), min_size=1, max_size=2))]
     return {'elements': els, 'calls': calls}
 
 
